@@ -144,6 +144,9 @@ func c06Monitor(tbl []c06Entry, host string, qt uint16, o c06Obs, viaCheckHost b
 	if o.reason == 2 {
 		return false, "reason", "unexpected reason"
 	}
+	if cut, by := c06ChainCut(tbl, o.canon); cut {
+		return false, "chain-cut", fmt.Sprintf("the chase stopped at %q although the entry %s leads further and the table has no CNAME cycle (a CNAME is followed through further rewrites, whatever the length of the chain)", o.canon, by)
+	}
 	final := host
 	if o.canon != "" {
 		final = o.canon
@@ -365,6 +368,72 @@ type c06Table struct {
 	label   string
 	entries []c06Entry
 	extraQ  []string
+	onlyQ   []string // when set: the names queried (instead of the standard list + extraQ)
+}
+
+// c06ChainName: the i-th name of a long chain; with wild the name is covered
+// by a wildcard pattern of its own (c06ChainPat).
+func c06ChainName(i int, wild bool) string {
+	if wild {
+		return fmt.Sprintf("x.w%d.chain.test", i)
+	}
+	return fmt.Sprintf("n%d.chain.test", i)
+}
+
+// c06ChainTable: an ACYCLIC chain of n canonical-name hops h0 -> h1 -> ... ->
+// hn (round 7, seeded change C06-M: a bound on the number of names followed),
+// every name queried, i.e. every distance from the end.  end: "addr" the last
+// name has an IPv4 and an IPv6 value; "out" it is outside the table (resolved
+// upstream); "novalue" it has a value of one family only; "cycle" the last
+// name points back at a name in the second half (a cycle after acyclic hops).
+// wildEvery > 0: every wildEvery-th name is covered by a wildcard entry.
+func c06ChainTable(r *vfRand, label string, n int, end string, wildEvery int) (t c06Table) {
+	t.label = label
+	isWild := func(i int) bool { return wildEvery > 0 && i%wildEvery == wildEvery-1 }
+	name := func(i int) string { return c06ChainName(i, isWild(i)) }
+	for i := 0; i < n; i++ {
+		src := name(i)
+		if isWild(i) {
+			src = "*" + src[1:]
+		}
+		t.entries = append(t.entries, c06Entry{src, name(i + 1)})
+	}
+	last := name(n)
+	if isWild(n) {
+		last = "*" + last[1:]
+	}
+	switch end {
+	case "addr":
+		t.entries = append(t.entries, c06Entry{last, "1.1.1.1"}, c06Entry{last, "::1"})
+	case "novalue":
+		t.entries = append(t.entries, c06Entry{last, "2.2.2.2"})
+	case "cycle":
+		t.entries = append(t.entries, c06Entry{last, name(n/2 + r.Intn(n/2+1))})
+	}
+	vfShuffle(r, t.entries)
+	for i := 0; i <= n; i++ {
+		t.onlyQ = append(t.onlyQ, name(i))
+	}
+	return t
+}
+
+// c06ChainTables: the constructed lengths around the bound of C06-M and random
+// ones.
+func c06ChainTables(r *vfRand, lengths []int, nRand, maxRand int) (ts []c06Table) {
+	for _, n := range lengths {
+		ts = append(ts, c06ChainTable(r, fmt.Sprintf("pre-longchain-%d", n), n, "addr", 0))
+	}
+	ts = append(ts,
+		c06ChainTable(r, "pre-longchain-out", 20, "out", 0),
+		c06ChainTable(r, "pre-longchain-novalue", 19, "novalue", 0),
+		c06ChainTable(r, "pre-longchain-cycle", 30, "cycle", 0),
+		c06ChainTable(r, "pre-longchain-wild", 22, "addr", 3))
+	for i := 0; i < nRand; i++ {
+		n := 1 + r.Intn(maxRand)
+		ts = append(ts, c06ChainTable(r, "rand-longchain", n,
+			vfPick(r, []string{"addr", "addr", "out", "novalue", "cycle"}), vfPick(r, []int{0, 0, 2, 5})))
+	}
+	return ts
 }
 
 func c06Prelude() []c06Table {
@@ -598,42 +667,67 @@ func c06RandTable(r *vfRand) (t c06Table) {
 }
 
 // c06HasCycle: is there a CNAME cycle of length >= 2 (following entries by
-// pattern coverage, wildcards included)?
+// pattern coverage, wildcards included; an entry onto the name itself is no
+// edge)?  Depth-first search with colours over the names that are answers.
 func c06HasCycle(tbl []c06Entry) bool {
 	next := func(n string) (out []string) {
 		for _, e := range tbl {
-			if _, err := netip.ParseAddr(e.ans); err == nil || e.ans == "A" || e.ans == "AAAA" || e.ans == n {
+			a := strings.ToLower(e.ans)
+			if !c06IsCnameAns(e.ans) || a == n {
 				continue
 			}
 			if c06Matches(e.dom, n) {
-				out = append(out, e.ans)
+				out = append(out, a)
 			}
 		}
 		return out
 	}
-	var visit func(n string, path map[string]bool, depth int) bool
-	visit = func(n string, path map[string]bool, depth int) bool {
-		if path[n] {
+	colour := map[string]int{} // 1 = on the path, 2 = done
+	var visit func(n string) bool
+	visit = func(n string) bool {
+		switch colour[n] {
+		case 1:
 			return true
-		}
-		if depth > 12 {
+		case 2:
 			return false
 		}
-		path[n] = true
-		defer delete(path, n)
+		colour[n] = 1
 		for _, m := range next(n) {
-			if visit(m, path, depth+1) {
+			if visit(m) {
 				return true
 			}
 		}
+		colour[n] = 2
 		return false
 	}
 	for _, e := range tbl {
-		if visit(e.ans, map[string]bool{}, 0) {
+		if c06IsCnameAns(e.ans) && visit(strings.ToLower(e.ans)) {
 			return true
 		}
 	}
 	return false
+}
+
+// c06ChainCut: in a table without a CNAME cycle nothing stops the chase at a
+// name that a canonical-name entry (not onto the name itself) still covers: "a
+// CNAME is followed through further rewrites", for chains of any length.
+func c06ChainCut(tbl []c06Entry, canon string) (cut bool, by string) {
+	if canon == "" || c06HasCycle(tbl) {
+		return false, ""
+	}
+	canon = strings.ToLower(canon)
+	for _, e := range tbl {
+		if !c06IsCnameAns(e.ans) || !c06Matches(e.dom, canon) {
+			continue
+		}
+		if strings.ToLower(e.ans) == canon {
+			// "*.example.com -> sub.example.com" reached at sub.example.com
+			// (#4016): the chase ends there by design
+			return false, ""
+		}
+		cut, by = true, e.dom+" -> "+e.ans
+	}
+	return cut, by
 }
 
 // c06CnameCovers: does a CNAME entry (not pointing at the name itself) cover name?
@@ -664,6 +758,22 @@ func TestVerifC06(t *testing.T) {
 	nRand := out.Scale(1000, 12000)
 	for i := 0; i < nRand; i++ {
 		tables = append(tables, c06RandTable(rnd.Fork(uint64(i))))
+	}
+	// long chains (round 7): lengths around and far beyond any plausible
+	// bound, every name of the chain queried; spread over the run so that no
+	// single evaluation shard gets all of them
+	{
+		chains := c06ChainTables(rnd.Fork(0xC4A1), []int{15, 16, 17, 18, 24, 33, 64}, out.Scale(8, 300), out.Scale(40, 64))
+		nPre := len(tables) - nRand
+		step := max(1, nRand/(len(chains)+1))
+		var mixed []c06Table
+		for i, tb := range tables {
+			mixed = append(mixed, tb)
+			if k := i - nPre; k >= 0 && (k+1)%step == 0 && len(chains) > 0 {
+				mixed, chains = append(mixed, chains[0]), chains[1:]
+			}
+		}
+		tables = append(mixed, chains...)
 	}
 	qr := rnd.Fork(0xC06)
 
@@ -734,13 +844,22 @@ func TestVerifC06(t *testing.T) {
 		}
 
 		hosts := append(append([]string{}, c06Query...), tb.extraQ...)
+		if tb.onlyQ != nil {
+			hosts = tb.onlyQ
+		}
 		var qCoq []string
 		var descQ []any
 		monOK, monMsg, monKind, monQ := true, "", "", ""
 		nontrivial, hung := false, false
-		for _, h := range hosts {
+		for hi, h := range hosts {
 			third := vfPick(qr, []uint16{dns.TypeTXT, dns.TypeCNAME, dns.TypeHTTPS})
-			for _, qt := range []uint16{dns.TypeA, dns.TypeAAAA, third} {
+			qtypes := []uint16{dns.TypeA, dns.TypeAAAA, third}
+			if tb.onlyQ != nil && hi%8 != 0 {
+				// long chains: every name (every distance from the end) for
+				// A, every eighth for all three types
+				qtypes = qtypes[:1]
+			}
+			for _, qt := range qtypes {
 				if hung {
 					break
 				}
